@@ -249,8 +249,10 @@ def build_cases(cx):
     return cases
 
 
-def run_driver_parallel(drv, out_impl, nproc):
-    """split the harness output per case and run several driver processes"""
+def run_driver_parallel(drv, out_impl, nproc, args=()):
+    """split the harness output per case into small batches and let a pool of workers pull them (dynamic load balance:
+    a few Minkowski cases cost 100x a hull case)"""
+    from concurrent.futures import ThreadPoolExecutor
     blocks, cur = [], []
     for l in out_impl.splitlines():
         cur.append(l)
@@ -258,23 +260,23 @@ def run_driver_parallel(drv, out_impl, nproc):
             blocks.append((sum(len(x) for x in cur), "\n".join(cur) + "\n"))
             cur = []
     blocks.sort(key=lambda b: -b[0])
-    k = max(1, min(nproc, len(blocks)))
-    chunks, load = [[] for _ in range(k)], [0] * k
+    batches, cb, csz = [], [], 0
     for sz, b in blocks:
-        i = load.index(min(load))
-        chunks[i].append(b)
-        load[i] += sz * sz        # cost grows faster than size
-    procs = [subprocess.Popen([drv], stdin=subprocess.PIPE, stdout=subprocess.PIPE, stderr=subprocess.PIPE, text=True) for _ in chunks]
-    import threading
-    outs = [None] * k
+        cb.append(b); csz += sz
+        if len(cb) >= 8 or csz > 40000:
+            batches.append("".join(cb)); cb, csz = [], 0
+    if cb:
+        batches.append("".join(cb))
+    bad = []
 
-    def work(i):
-        outs[i] = procs[i].communicate("".join(chunks[i]), timeout=3000)
-    ths = [threading.Thread(target=work, args=(i,)) for i in range(k)]
-    [t.start() for t in ths]
-    [t.join() for t in ths]
-    bad = [(p.returncode, o[1][-300:]) for p, o in zip(procs, outs) if p.returncode != 0]
-    return "".join(o[0] for o in outs if o), bad
+    def work(text):
+        p = subprocess.run([drv] + list(args), input=text, stdout=subprocess.PIPE, stderr=subprocess.PIPE, text=True, timeout=3000)
+        if p.returncode != 0:
+            bad.append((p.returncode, p.stderr[-300:]))
+        return p.stdout
+    with ThreadPoolExecutor(max_workers=max(1, nproc)) as ex:
+        outs = list(ex.map(work, batches))
+    return "".join(outs), bad
 
 
 def run(cx):
